@@ -273,6 +273,12 @@ func tmpRoot() string {
 // freezer goroutine is parked at the start of its first iteration.
 func open(inner ethdb.KeyValueStore, root string) (*inst, error) {
 	d := newDriver()
+	// Open prints a "Chain metadata" table to os.Stdout on its error paths
+	saved := os.Stdout
+	if null, e := os.OpenFile(os.DevNull, os.O_WRONLY, 0); e == nil {
+		os.Stdout = null
+		defer func() { os.Stdout = saved; null.Close() }()
+	}
 	db, err := rawdb.Open(&gateKV{KeyValueStore: inner, d: d}, rawdb.OpenOptions{Ancient: root})
 	if err != nil {
 		return nil, err
@@ -672,6 +678,14 @@ func run(c Sx) Result {
 				}
 				obs = append(obs, SL{I(9), I(cls)})
 				tags[fmt.Sprintf("cycle-class%d", cls)] = true
+				if reached > 0 && crashed {
+					// not a property of the code (C25_side_chains_survive_crash_refuted): only counted
+					for n := uint64(1); n < last.frozen; n++ {
+						if hs := rawdb.ReadAllHashes(inner, n); len(hs) != 0 {
+							tags["leftover-below-boundary-after-crash"] = true
+						}
+					}
+				}
 				if reached > 0 && !crashed && wf {
 					for n := uint64(1); n < last.frozen; n++ {
 						if hs := rawdb.ReadAllHashes(inner, n); len(hs) != 0 {
